@@ -188,7 +188,7 @@ def run(ck):
         rp = json.load(open(ck.replay))
         cases = [(rp["xml"], doc_from_json(rp.get("doc")))] if "xml" in rp else []
     else:
-        cases = build_cases(ck, 2500 if ck.quick else 250000)
+        cases = build_cases(ck, 10000 if ck.quick else 250000)
     proofs_ok, bindir, model = build_all(ck)
     impl = run_impl(ck, bindir, cases)
 
